@@ -19,7 +19,8 @@ EXPLANATION = (
     "Bytes::len/is_empty read the same storage as as_slice. CTOR-COPY: every conversion of a crate container from a "
     "byte source (From<&[u8]>, From<&[u8; N]>, From<[u8; N]>, From<StackByteArray>, TryFrom<&[u8]>), every Clone of "
     "one and every MutBytes::copy_from_slice impl lets the contents of the source (not just its length) reach the "
-    "result.")
+    "result. RESIZE prefix copy: a replacement resize copies old[..n] to new[..n]. Parameter words: a backend that "
+    "spells the eight BLAKE2b parameter words out as constant ranges reads each [8i, 8i+8) once, in order.")
 NOT_DECIDED = ("equivalence of the scalar and SIMD compression functions (value-level); sha2's asm backend; "
                "curve25519 backends; that outputs are bit-identical across configurations.")
 
@@ -350,6 +351,41 @@ def run(ctx, rep):
     accessors(rep, full)
     resizers(rep, full)
     constructors(rep, full)
+    param_words(rep, soft, simd)
+
+
+def param_words(rep, soft, simd):
+    """SIB (parameter block): BLAKE2b folds the 64-byte parameter block (digest length, key length, fan-out, ...,
+    salt, personalisation) into the eight state words.  The software backend does it in a loop over i; a backend
+    that spells the eight words out as constant ranges must read each of [8i, 8i+8) exactly once, in order - a
+    repeated range means one parameter word (the salt that carries a KDF subkey id, say) never reaches the state
+    in that build only."""
+    n = 0
+    for prog, nm in ((soft, "blake2b_soft"), (simd, "blake2b_simd")):
+        for f in prog.fns:
+            if not f.path.endswith(nm + "::State::init_param") or not f.blocks:
+                continue
+            words = []
+            for c in f.calls():
+                if f.blocks[c.bb]["cleanup"] or len(c.args) != 1 or f.locals[c.dest["l"]]["t"] != "u64":
+                    continue
+                ls = list(operand_locals(c.args[0]))
+                if not ls:
+                    continue
+                root, s, e = cm.view_extent(f, ls[0])
+                if s is None or e is None or e - s != 8:
+                    continue
+                words.append((s, e, c))
+            if not words:
+                rep.note("SIB: %s::State::init_param reads the parameter block in a loop (no constant ranges): not judged" % nm)
+                continue
+            n += 1
+            got = [(s, e) for s, e, _ in words]
+            want = [(8 * i, 8 * i + 8) for i in range(8)]
+            rep.ob("SIB", "%s::State::init_param|parameter words" % nm, got == want,
+                   "parameter block read as %s (expected each of the eight words once, in order)" % got,
+                   loc=next((c.loc() for (s, e, c), w in zip(words, want) if (s, e) != w), words[0][2].loc()))
+    rep.note("SIB: %d backend(s) spell out the parameter words as constant ranges" % n)
 
 
 def constructors(rep, prog):
